@@ -184,7 +184,7 @@ func (fv *FV) call(e *Env, x *ast.CallExpr) Value {
 			}
 		}
 	}
-	if u := fv.eng.unitOf(fn); u != nil && u.C != nil {
+	if u := fv.eng.unitOf(fn); u != nil && u.C != nil && !u.C.BodyOnly {
 		sigF := fn.Type().(*types.Signature)
 		switch {
 		case x.Ellipsis.IsValid():
